@@ -10,6 +10,7 @@ CONSTANTS
   MaxHeap = 6
   MaxNss = 2
   DumpEdges = TRUE
+  UvalOps = {"NsNew"}
 VIEW View
 ACTION_CONSTRAINT Dump
 INVARIANT StateDump
@@ -18,6 +19,7 @@ INVARIANT DefaultsPristine
 INVARIANT FoldAgrees
 INVARIANT ResultClass
 INVARIANT OperandsContained
+INVARIANT HeldIsGiven
 INVARIANT RejectionDocumented
 INVARIANT EqIsEquivalence
 INVARIANT EqualHashEqual
